@@ -34,6 +34,7 @@ FORBIDDEN = re.compile(r'\b(sorry|admit|native_decide|bv_decide|implemented_by|u
 ALL_PROPS = ['C%02d' % i for i in range(1, 21)]
 # shared lemmas of Props/Common.lean and which properties lean on them (default: all)
 SHARED_USERS = {
+    'consts_ok': ALL_PROPS,
     'cap_admits_64': ['C11', 'C05'], 'capOK': ['C04', 'C05', 'C14', 'C16'], 'cap_eq': ['C04', 'C05', 'C11', 'C16', 'C02'],
     'setSize_encOK': ['C01', 'C03', 'C06', 'C09', 'C10', 'C15', 'C19', 'C20'], 'encode_encOK': ['C01', 'C03', 'C06', 'C09', 'C10', 'C15', 'C19', 'C20'],
     'encStep_ok': ['C01', 'C03', 'C06', 'C09', 'C10', 'C15', 'C19', 'C20'], 'encReach_ok': ['C01', 'C03', 'C06', 'C09', 'C10', 'C15', 'C19', 'C20'],
@@ -201,6 +202,7 @@ def streams_for(prop, seed, tier, boost=1):
     if prop == 'C11':
         add('int', G('int').int_stream(n_random=400 * k))
         add('int-extra', genmod.int_extra_stream(G('ix')))
+        add('int-memoryview', genmod.int_memoryview_truncations())
         if T:
             add('int-exhaustive', G('x').int_exhaustive())
     elif prop == 'C12':
@@ -221,6 +223,8 @@ def streams_for(prop, seed, tier, boost=1):
         add('table', G('table').table_stream(n_tables=12 * k))
         add('table-big', big_table_stream())
         add('table-long-history', genmod.big_history_table_stream(4300))
+        add('enc-failing', genmod.enc_fail_stream(G('ef'), n=15 * k))
+        add('table-debuglog', genmod.with_debug_log(G('table2').table_stream(n_tables=6 * k)))
         add('dec-update-runs', genmod.dec_updates_stream(G('du'), n=15 * k))
         add('dec-extra', genmod.dec_extra_catalogue(G('dx')))
         add('deccat', G('deccat').dec_catalogue())
@@ -232,6 +236,8 @@ def streams_for(prop, seed, tier, boost=1):
     elif prop in ('C02',):
         add('deccat', G('deccat').dec_catalogue())
         add('dec-wf', G('dec').dec_stream(n_conn=60 * k, mal=0.0))
+        add('deccat-debuglog', genmod.with_debug_log(G('deccat').dec_catalogue()))
+        add('conn-big-binary', genmod.big_binary_conn_stream(G('bb')))
         add('dec-mixed', G('dec2').dec_stream(n_conn=20 * k, mal=0.3, start_id=3000))
         add('dec-update-runs', genmod.dec_updates_stream(G('du'), n=20 * k))
         add('dec-ambiguity', genmod.ambiguity_stream(G('am'), n_random=50 * k))
@@ -240,6 +246,7 @@ def streams_for(prop, seed, tier, boost=1):
     elif prop in ('C04', 'C05'):
         add('deccat', G('deccat').dec_catalogue())
         add('dec-mal', G('dec').dec_stream(n_conn=60 * k, mal=0.55))
+        add('deccat-debuglog', genmod.with_debug_log(G('deccat').dec_catalogue()))
         add('dec-wf', G('dec2').dec_stream(n_conn=20 * k, mal=0.0, start_id=3000))
         add('dec-setters', genmod.dec_setter_stream(G('ds'), n=20 * k))
         add('dec-update-runs', genmod.dec_updates_stream(G('du'), n=10 * k))
@@ -253,6 +260,7 @@ def streams_for(prop, seed, tier, boost=1):
         add('deccat', G('deccat').dec_catalogue())
         add('dec-limits', G('dec').dec_stream(n_conn=80 * k, mal=0.15))
         add('dec-bounds', bounds_stream(G('b'), 40 * k))
+        add('conn-big-binary', genmod.big_binary_conn_stream(G('bb')))
         add('dec-extra', genmod.dec_extra_catalogue(G('dx')))
         add('dec-update-runs', genmod.dec_updates_stream(G('du'), n=10 * k))
         add('dec-setters', genmod.dec_setter_stream(G('ds'), n=8 * k))
@@ -263,6 +271,8 @@ def streams_for(prop, seed, tier, boost=1):
         add('conn-evict', evict_stream(G('ev'), 12 * k))
         add('enc-big-tables', genmod.big_table_encoder_stream(G('bt')))
         add('api-forms-conn', genmod.api_forms_conn_stream(G('af'), n=15 * k))
+        add('enccat-debuglog', genmod.with_debug_log(G('enccat').enc_catalogue()))
+        add('conn-evict-debuglog', genmod.with_debug_log(evict_stream(G('ev2'), 6 * k)))
         if prop == 'C15':
             add('dec-text', G('dect').dec_stream(n_conn=25 * k, mal=0.05, start_id=4000))
             add('dec-extra', genmod.dec_extra_catalogue(G('dx')))
@@ -273,6 +283,9 @@ def streams_for(prop, seed, tier, boost=1):
         add('enc-sizes', genmod.enc_size_stream(G('es'), n=60 * k))
         add('enc', G('enc').enc_stream(n_conn=30 * k))
         add('api-forms-conn', genmod.api_forms_conn_stream(G('af'), n=8 * k))
+        add('enc-sizes-debuglog', genmod.with_debug_log(genmod.enc_size_stream(G('es2'), n=10 * k)))
+        ops_, groups_ = genmod.dict_dupkey_stream()
+        add('dict-and-generators', ops_)
     elif prop in ('C01', 'C10'):
         add('conn', G('conn').conn_stream(n_conn=40 * k))
         add('conn-text', G('conntext').conn_text_stream(n_conn=15 * k))
@@ -280,6 +293,10 @@ def streams_for(prop, seed, tier, boost=1):
         add('conn-evict', evict_stream(G('ev'), 12 * k))
         add('api-forms-conn', genmod.api_forms_conn_stream(G('af'), n=20 * k))
         add('enc-big-tables', genmod.big_table_encoder_stream(G('bt')))
+        add('conn-big-binary', genmod.big_binary_conn_stream(G('bb')))
+        add('conn-debuglog', genmod.with_debug_log(G('conn2').conn_stream(n_conn=10 * k, start_id=700)))
+        ops_, groups_ = genmod.dict_dupkey_stream()
+        add('dict-and-generators', ops_)
     elif prop == 'C17':
         add('deccat', G('deccat').dec_catalogue())
         add('dec-buffers', G('dec').dec_stream(n_conn=60 * k, mal=0.2))
@@ -296,6 +313,10 @@ def streams_for(prop, seed, tier, boost=1):
         add('api-forms-conn', genmod.api_forms_conn_stream(G('af'), n=15 * k))
         ops, pairs = modes_extra(G('mx'))
         add('modes-extra', ops, {'pairs': pairs})
+        ops, groups = genmod.dict_dupkey_stream()
+        add('dict-and-generators', ops, {'groups': groups})
+        ops, pairs = genmod.utf8_tail_stream()
+        add('utf8-tails', ops, {'pairs': pairs})
     elif prop == 'C16':
         add('deccat', G('deccat').dec_catalogue())
         add('dec-mal', G('dec').dec_stream(n_conn=30 * k, mal=0.4))
